@@ -581,6 +581,7 @@ def run(c, prog):
     rule_xref(c, prog, d)
     from . import C06
     C06.rule_desc(core.Alias(c, "C16"), prog)
+    C06.rule_name(core.Alias(c, "C16"), prog)     # the one lookup the XML reader performs for every instance: `Name`
     # `an instance populated with its class's defaults is written and read back unchanged by both formats`: the scalar
     # codecs of the binary format (the defaults include i32::MAX) and the XML SharedString dictionary (31 defaults are the
     # empty SharedString) are the parts of the codecs that clause leans on
